@@ -110,7 +110,10 @@ CHECKS["C09"] = {
             "sources over T=4 cycles (incl. never-ticking = idle parent driven only by the child's own schedule). Oracle: outer sink stream "
             "identical across the four variants and equal to the reference; every internal evaluation equals the reference's (no wake-up "
             "lost or moved); a child graph is never evaluated before its parent's current time. non-trivial = nested variant, body with an "
-            "internal timer, at least one outer tick.",
+            "internal timer, at least one outer tick. "
+            "Late-created enclosing graph: the same bodies (<= 2 statements, 3 thorough) as the single branch of a switch_ that is selected in cycle "
+            "0, 1 or 2, once as nested_<G> and once inlined, over every input history: when the branch starts its boundary inputs may already hold "
+            "values, and both variants must give the same output stream.",
     "bounds": {"quick": "bodies <= 3 statements, T=4 (256 histories), depth 0..3", "thorough": "bodies <= 4 statements, T=4, depth 0..3"},
     "min_counters": {"quick": {"nontrivial": 20000, "nested.bodies": 1000}},
     "assumptions": COMMON_ASSUMPTIONS + ["Bodies larger than the bound, REF-shaped boundaries (C13) and captured outer ports are not explored here."],
